@@ -40,7 +40,7 @@ def main():
         'setup_cmd': 'bash tools/setup.sh',
         'hooks': {'guard': 'verif', 'enable': 'go build -tags verif (harness module in /verif/harness with replace => /repo)',
                   'baseline_off_cmd': "cd /repo && export GOFLAGS=-mod=mod GOPROXY=off GOSUMDB=off GOTOOLCHAIN=local && go test -vet=off -count=1 ./data/... ./io/json/... ./util/...",
-                  'source_commits': ['c6ba772', 'f534c6c'], 'add_only': True},
+                  'source_commits': ['c6ba772', 'f534c6c', 'bb49974'], 'add_only': True},
         'engines': [{'name': 'coq-model+correspondence', 'path': 'coq/ ocaml/ harness/ tools/',
                      'serves_properties': sorted(CHECKS), 'kind_free_text': 'Rocq/Coq 8.16 proofs about an executable Gallina model; extracted model run against the Go code on shared inputs'}],
         'checks': checks,
